@@ -36,7 +36,7 @@ INFO = dict(
   stubs=['random.* in heap/aperture/base -> symbolic (3.3); shuffle = identity', 'fake channels, fake server-set provider (3.12)', 'virtual loop (3.1)'],
   assumptions=['notifications are delivered serially in the order they occurred (the provider contract stated in base.py)', 'invariant = reachable states'],
 )
-EXPECT_COVERS = ['join-new', 'join-duplicate', 'leave-present', 'leave-unknown', 'aperture-leave-active-replaced-from-idle',
+EXPECT_COVERS = ['join-while-still-pending', 'join-new', 'join-duplicate', 'leave-present', 'leave-unknown', 'aperture-leave-active-replaced-from-idle',
                  'aperture-join-goes-idle', 'gating-notification-during-load']
 
 
@@ -54,6 +54,7 @@ def jobs(tier):
           if na: tgts += [('leave', 'active', t) for t in range(na)]
           if ni: tgts += [('leave', 'idle', 0)]
           tgts += [('leave', 'unknown', 0), ('join', 'new', 0)]
+          if cls == 'aperture': tgts += [('join', 'pending-departed', 0)]
           if na: tgts += [('join', 'dup-active', 0)]
           if ni: tgts += [('join', 'dup-idle', 0)]
           for (op, kind, t) in tgts:
@@ -130,9 +131,15 @@ def make_body(job):
     kind, t = job['kind'], job['t']
     join = s._LoadBalancerSink__OnServerSetJoin; leave = s._LoadBalancerSink__OnServerSetLeave
     if op == 'join':
-      if kind == 'new':
+      if kind in ('new', 'pending-departed'):
         cover('join-new')
-        m = Member(Ep('new', 1)); join(m); R2 = R + [m.service_endpoint]
+        m = Member(Ep('new', 1))
+        if kind == 'pending-departed':
+          # the endpoint was taken into the aperture, left while its channel was still opening (it is still
+          # recorded as pending) and now joins again
+          cover('join-while-still-pending')
+          s._pending_endpoints.add(m.service_endpoint)
+        join(m); R2 = R + [m.service_endpoint]
         eps, idle = held_endpoints(s)
         if m.service_endpoint in idle: cover('aperture-join-goes-idle')
         if m.service_endpoint in eps:
